@@ -54,6 +54,16 @@ variable (s : St σ) (b : Board) (ps : σ) (pv : Pv.Rows) (sm : StackMove) (a : 
 @[simp] theorem flag_pv : (s.flag a).pv = s.pv := rfl
 @[simp] theorem flag_hstack : (s.flag a).hstack = s.hstack := rfl
 @[simp] theorem flag_frames : (s.flag a).frames = s.frames := rfl
+@[simp] theorem flagTT_board : (s.flagTT a).board = s.board := rfl
+@[simp] theorem flagTT_pv : (s.flagTT a).pv = s.pv := rfl
+@[simp] theorem flagTT_hstack : (s.flagTT a).hstack = s.hstack := rfl
+@[simp] theorem flagTT_frames : (s.flagTT a).frames = s.frames := rfl
+@[simp] theorem flagTT_ps : (s.flagTT a).ps = s.ps := rfl
+@[simp] theorem flagTT_aborted : (s.flagTT a).aborted = s.aborted := rfl
+@[simp] theorem flagTT_nodes : (s.flagTT a).nodes = s.nodes := rfl
+@[simp] theorem flagTT_anomaly : (s.flagTT a).anomaly = s.anomaly := rfl
+@[simp] theorem flagTT_nmpOut : (s.flagTT a).nmpOut = s.nmpOut := rfl
+@[simp] theorem flagTT_fuelOut : (s.flagTT a).fuelOut = s.fuelOut := rfl
 end fields
 
 theorem setBoard_self (s : St σ) : s.setBoard s.board = s := by cases s; rfl
@@ -63,18 +73,20 @@ variable [PsInv σ]
 theorem mono_setBoard (L : Limits) (s : St σ) (b : Board) : Mono L s (s.setBoard b) := Mono.of_eq rfl rfl rfl rfl rfl rfl rfl
 /-- replacing the persistent state: the new one must satisfy the invariant if the old one did. -/
 theorem mono_setPs (L : Limits) (s : St σ) (ps : σ) (h : PsInv.ok s.ps → PsInv.ok ps) : Mono L s (s.setPs ps) :=
-  ⟨rfl, Int.le_refl _, fun _ h => h, id, id, id, Nat.le_refl _, id, h⟩
+  ⟨rfl, Int.le_refl _, fun _ h => h, id, id, id, Nat.le_refl _, id, id, h⟩
 theorem mono_setPv (L : Limits) (s : St σ) (pv : Pv.Rows) : Mono L s (s.setPv pv) := Mono.of_eq rfl rfl rfl rfl rfl rfl rfl
 theorem mono_push (L : Limits) (s : St σ) (sm : StackMove) : Mono L s (s.push sm) := Mono.of_eq rfl rfl rfl rfl rfl rfl rfl
 theorem mono_pop (L : Limits) (s : St σ) : Mono L s s.pop := Mono.of_eq rfl rfl rfl rfl rfl rfl rfl
 theorem mono_pushFrame (L : Limits) (s : St σ) : Mono L s s.pushFrame := Mono.of_eq rfl rfl rfl rfl rfl rfl rfl
 theorem mono_popFrame (L : Limits) (s : St σ) : Mono L s s.popFrame := Mono.of_eq rfl rfl rfl rfl rfl rfl rfl
 theorem mono_outOfFuel (L : Limits) (s : St σ) : Mono L s s.outOfFuel :=
-  ⟨rfl, Int.le_refl _, fun _ h => h, fun _ => rfl, fun _ => rfl, id, Nat.le_refl _, id, id⟩
+  ⟨rfl, Int.le_refl _, fun _ h => h, fun _ => rfl, fun _ => rfl, id, Nat.le_refl _, id, id, id⟩
 theorem mono_flag (L : Limits) (s : St σ) (a : Bool) : Mono L s (s.flag a) :=
-  ⟨rfl, Int.le_refl _, fun _ h => h, id, id, fun h => by simp [St.flag, h], Nat.le_refl _, id, id⟩
+  ⟨rfl, Int.le_refl _, fun _ h => h, id, id, fun h => by simp [St.flag, h], Nat.le_refl _, id, id, id⟩
 theorem mono_flagNmp (L : Limits) (s : St σ) (a : Bool) : Mono L s (s.flagNmp a) :=
-  ⟨rfl, Int.le_refl _, fun _ h => h, id, id, id, Nat.le_refl _, fun h => by simp [St.flagNmp, h], id⟩
+  ⟨rfl, Int.le_refl _, fun _ h => h, id, id, id, Nat.le_refl _, fun h => by simp [St.flagNmp, h], id, id⟩
+theorem mono_flagTT (L : Limits) (s : St σ) (a : Bool) : Mono L s (s.flagTT a) :=
+  ⟨rfl, Int.le_refl _, fun _ h => h, id, id, id, Nat.le_refl _, id, fun h => by simp [St.flagTT, h], id⟩
 
 /-! ### quiescence -/
 
@@ -95,8 +107,9 @@ theorem qAfter_spec (c : Comp σ π) (L : Limits) {Good : Board → Prop} (hl : 
   split
   · exact ⟨(mono_setBoard L s _).trans hf.mono, hf.board, hf.hstack, hf.frames, hp.1, fun _ h => by cases h⟩
   · split
-    · exact ⟨((mono_setBoard L s _).trans hf.mono).trans (mono_setPs L _ _
-          (fun h => hl.ok_store _ _ _ _ _ _ _ h (by rw [hf.board]; exact hgb) (Or.inr (by rw [hf.board]; exact hmb)))),
+    · exact ⟨(((mono_setBoard L s _).trans hf.mono).trans (mono_setPs L _ _
+          (fun h => hl.ok_store _ _ _ _ _ _ _ h (by rw [hf.board]; exact hgb) (Or.inr (by rw [hf.board]; exact hmb))))).trans
+          (mono_flagTT L _ _),
         hf.board, hf.hstack, hf.frames, hp.1, fun _ h => by cases h⟩
     · exact ⟨(mono_setBoard L s _).trans hf.mono, hf.board, hf.hstack, hf.frames, hp.1, fun _ h => by cases h⟩
 
@@ -172,8 +185,9 @@ theorem qBody_spec (c : Comp σ π) (L : Limits) {Good : Board → Prop} (hl : L
           have hpv : r.2.popFrame.pv = s.pv := h.2
           split
           · exact ⟨hfr, hpv⟩
-          · exact ⟨⟨hfr.mono.trans (mono_setPs L _ _
-              (fun h' => hl.ok_store _ _ _ _ _ _ _ h' (by rw [hfr.board]; exact hg) (Or.inl rfl))),
+          · exact ⟨⟨(hfr.mono.trans (mono_setPs L _ _
+              (fun h' => hl.ok_store _ _ _ _ _ _ _ h' (by rw [hfr.board]; exact hg) (Or.inl rfl)))).trans
+              (mono_flagTT L _ _),
               hfr.board, hfr.hstack, hfr.frames⟩, hpv⟩
 
 /-- the draw test of a node failed: the halfmove clock is below 100. -/
@@ -304,8 +318,9 @@ theorem abAfter_spec (c : Comp σ π) (L : Limits) {Good : Board → Prop} (hl :
   · split
     · next hgt =>
       split
-      · exact ⟨hm.trans (mono_setPs L _ _ (fun h => hl.ok_failHigh _ _ _ _ _
-            (hl.ok_store _ _ _ _ _ _ _ h (by rw [hf.board]; exact hgb) (Or.inr (by rw [hf.board]; exact hmb))))),
+      · exact ⟨(hm.trans (mono_setPs L _ _ (fun h => hl.ok_failHigh _ _ _ _ _
+            (hl.ok_store _ _ _ _ _ _ _ h (by rw [hf.board]; exact hgb) (Or.inr (by rw [hf.board]; exact hmb)))))).trans
+            (mono_flagTT L _ _),
           hf.board, hf.hstack, hf.frames, Or.inl hp, fun l' h => by rcases h with h | h <;> cases h⟩
       · split
         · exact ⟨hm.trans (mono_setPv L _ _), hf.board, hf.hstack, hf.frames, Or.inr ⟨hgt, by simp [hp]⟩,
@@ -470,7 +485,8 @@ theorem abMoves_spec (c : Comp σ π) (L : Limits) {Good : Board → Prop} (hl :
     have hbest := h.2.2.2 l heq
     have hgb : Good r.2.popFrame.board := by rw [hfr.board]; exact hg
     have hbest' : l.bestMove = 0 ∨ l.bestMove ∈ MoveGen.gen r.2.popFrame.board := by rw [hfr.board]; exact hbest
-    refine ⟨⟨hfr.mono.trans ((mono_setPs L _ _ (fun h' => ?_)).trans (mono_flag L _ _)), hfr.board, hfr.hstack, hfr.frames⟩,
+    refine ⟨⟨hfr.mono.trans (((mono_setPs L _ _ (fun h' => ?_)).trans (mono_flag L _ _)).trans (mono_flagTT L _ _)),
+      hfr.board, hfr.hstack, hfr.frames⟩,
       h.2.1, h.2.2.1⟩
     have hst : ∀ dd pp m' v bd, (m' = 0 ∨ m' = l.bestMove) →
         PsInv.ok (c.ttStore r.2.popFrame.ps r.2.popFrame.board dd pp m' v bd) := by
